@@ -277,6 +277,51 @@ class Check:
             res["dead_actions"] = dead
         return res
 
+    # ------------------------------------------------------------------ TLAPS
+    def tlaps(self, module, mutate=None, timeout=900):
+        """Runs the TLA+ proof system on a copy of specs/<module>.tla in a
+        scratch directory.  Returns (proved, total).  With `mutate` =
+        (old, new) the text is changed first (negative control: the changed
+        module must NOT be provable)."""
+        import re
+        tmp = tempfile.mkdtemp(prefix="tlaps_")
+        t0 = time.time()
+        try:
+            with open(os.path.join(SPECS, module + ".tla")) as f:
+                text = f.read()
+            if mutate:
+                if mutate[0] not in text:
+                    raise MachineryFailure("tlaps: mutation site not found")
+                text = text.replace(mutate[0], mutate[1])
+            with open(os.path.join(tmp, module + ".tla"), "w") as f:
+                f.write(text)
+            try:
+                p = subprocess.run(["tlapm", "--threads", "8",
+                                    module + ".tla"], cwd=tmp,
+                                   stdout=subprocess.PIPE,
+                                   stderr=subprocess.STDOUT, timeout=timeout)
+                out = p.stdout.decode("utf-8", "replace")
+            except subprocess.TimeoutExpired:
+                raise MachineryFailure("tlapm timed out on " + module)
+        finally:
+            shutil.rmtree(tmp, ignore_errors=True)
+        m = re.search(r"All (\d+) obligations? proved", out)
+        if m:
+            res = (int(m.group(1)), int(m.group(1)))
+        else:
+            m = re.search(r"(\d+)/(\d+) obligations? failed", out)
+            if not m:
+                raise MachineryFailure("tlapm output not understood:\n" +
+                                       out[-2000:])
+            res = (int(m.group(2)) - int(m.group(1)), int(m.group(2)))
+        self.tlc_runs.append(dict(module=module, cfg="tlapm" + (
+            " (mutated)" if mutate else ""), rc=0, generated=None,
+            distinct=None, depth=None,
+            violated=None if res[0] == res[1] else
+            "%d obligations unproved" % (res[1] - res[0]),
+            wall_s=round(time.time() - t0, 1)))
+        return res
+
     # ------------------------------------------------- trace validation (H->S)
     def validate_traces(self, module, cfg, traces, env=None, workers=1,
                         invariant="Accepting", timeout=3000, extra_doc=None):
